@@ -75,6 +75,17 @@ def run(ck):
         if w2f[1] != wf[1] or numpy.abs(w2f[5] - wf[5]).max() > 1e-9 * scw or abs(w2f[4] - wf[4]) > 1e-9 * sc:
             ck.fail("axis:freq-time-freq", "frequency axis -> time axis -> frequency axis is not the identity", inp,
                     float(numpy.abs(w2f[5] - wf[5]).max()) if w2f[1] == wf[1] else "length")
+        # a copy of the time axis moved to zero (what the 2D containers do before transforming): the axis it was copied from stays where it is
+        if h % 3 == 2 and start > 0 and dt > 0:
+            try:
+                t_orig = numpy.array(t.data).copy()
+                tcp = t.copy(); tcp.shift_to_zero()
+                back_ = t.get_FrequencyAxis().get_TimeAxis()
+                if numpy.abs(numpy.array(t.data) - t_orig).max() != 0.0 or abs(back_.start - start) > 1e-9 * sc or numpy.abs(numpy.array(back_.data) - t_orig).max() > 1e-9 * sc:
+                    ck.fail("axis:copy-shifted:original-changed", "after copy().shift_to_zero() the original time axis (or the axis its frequency axis maps back to) "
+                            "no longer holds its values", inp, [float(numpy.array(t.data)[0]), float(back_.start)], start)
+            except Exception as e:
+                ck.fail("raises:axes:copy-shifted", "raised %r" % (e,), inp)
         # the copy of a derived frequency axis (what the spectrum classes keep) maps back to the same time axis
         if h % 2 == 1:
             try:
